@@ -181,6 +181,13 @@ theorem keyLookup_strip (sp : StripFn) (k : KeyDecl) (root : Loc) (s : String) (
 
 /-! ### xsl:number level any, the specification -/
 
+theorem fromMatches_strip (sp : StripFn) (f : Option Test) (l : Loc) (h : keep sp l = true) :
+    fromMatches sp f l = fromMatches noStrip f (l.strip sp) := by
+  cases f with
+  | none => rfl
+  | some t => simp [fromMatches, patMatches_strip sp t l, h]
+
+
 theorem precSibsDesc_strip (sp : StripFn) (a : Loc) (has : a.stripped sp = false) :
     (((a.precedingSiblings).flatMap fun s => s.descOrSelf.reverse).filter (keep sp)).map (Loc.strip sp)
       = ((a.strip sp).precedingSiblings).flatMap fun s => s.descOrSelf.reverse := by
@@ -229,36 +236,61 @@ theorem filter_patMatches_strip (sp : StripFn) (c : Test) (L : List Loc) :
       · simp [hk, hp, ih]
     · simp [hk, ih]
 
-theorem numberAnySpec_strip (sp : StripFn) (c : Test) (l : Loc) (h : l.stripped sp = false) :
-    numberAnySpec sp c l = numberAnySpec noStrip c (l.strip sp) := by
+theorem takeWhile_from_strip (sp : StripFn) (f : Option Test) :
+    ∀ L : List Loc,
+      (((L.takeWhile fun x => !fromMatches sp f x).filter (keep sp)).map (Loc.strip sp))
+        = (((L.filter (keep sp)).map (Loc.strip sp)).takeWhile fun x => !fromMatches noStrip f x)
+  | [] => rfl
+  | x :: xs => by
+    have ih := takeWhile_from_strip sp f xs
+    by_cases hk : keep sp x = true
+    · have hf := fromMatches_strip sp f x hk
+      simp only [List.takeWhile_cons, List.filter_cons, hk, if_true, List.map_cons]
+      rw [← hf]
+      cases fromMatches sp f x
+      · simp [hk, ih]
+      · simp
+    · have hk' : keep sp x = false := (Bool.not_eq_true _).mp hk
+      -- a stripped node matches no pattern: the walk passes it, and it is not there on D'
+      have hfx : fromMatches sp f x = false := by
+        cases f with
+        | none => rfl
+        | some t => simp [fromMatches, patMatches_strip sp t x, hk']
+      simp only [List.takeWhile_cons, hfx, Bool.not_false, if_true, List.filter_cons, hk', Bool.false_eq_true,
+        if_false]
+      exact ih
+
+theorem numberAnySpec_strip (sp : StripFn) (c : Test) (f : Option Test) (l : Loc) (h : l.stripped sp = false) :
+    numberAnySpec sp c f l = numberAnySpec noStrip c f (l.strip sp) := by
   unfold numberAnySpec
-  rw [filter_patMatches_strip sp c (l :: l.before)]
+  rw [filter_patMatches_strip sp c (l :: _)]
   have hk : keep sp l = true := by simp [keep, h]
   simp only [List.filter_cons, hk, if_true, List.map_cons]
-  rw [before_strip sp l h]
+  rw [takeWhile_from_strip sp f l.before, before_strip sp l h]
 
 /-! ### xsl:number single / multiple -/
 
-theorem fromMatches_strip (sp : StripFn) (f : Option Test) (l : Loc) (h : keep sp l = true) :
-    fromMatches sp f l = fromMatches noStrip f (l.strip sp) := by
-  cases f with
-  | none => rfl
-  | some t => simp [fromMatches, patMatches_strip sp t l, h]
-
-theorem matchingAncestors_strip (sp : StripFn) (c : Test) (f : Option Test) (single : Bool) :
-    ∀ L : List Loc, (∀ x ∈ L, keep sp x = true) →
-      (matchingAncestors sp c f single L).map (Loc.strip sp)
-        = matchingAncestors noStrip c f single (L.map (Loc.strip sp))
-  | [], _ => rfl
-  | n :: rest, h => by
+theorem matchingAncestorsFrom_strip (sp : StripFn) (c : Test) (f : Option Test) (single : Bool) :
+    ∀ (L : List Loc) (b : Bool), (∀ x ∈ L, keep sp x = true) →
+      (matchingAncestorsFrom sp c f single b L).map (Loc.strip sp)
+        = matchingAncestorsFrom noStrip c f single b (L.map (Loc.strip sp))
+  | [], _, _ => rfl
+  | n :: rest, b, h => by
     have hn := h n (by simp)
-    have ih := matchingAncestors_strip sp c f single rest (fun x hx => h x (List.mem_cons_of_mem _ hx))
-    simp only [matchingAncestors, List.map_cons]
+    have ih := matchingAncestorsFrom_strip sp c f single rest false
+      (fun x hx => h x (List.mem_cons_of_mem _ hx))
+    simp only [matchingAncestorsFrom, List.map_cons]
     rw [← fromMatches_strip sp f n hn]
     have hp : patMatches sp c n = patMatches noStrip c (n.strip sp) := by
       rw [patMatches_strip sp c n, hn, Bool.true_and]
     rw [← hp]
-    cases fromMatches sp f n <;> cases single <;> cases patMatches sp c n <;> simp [ih]
+    cases b <;> cases fromMatches sp f n <;> cases single <;> cases patMatches sp c n <;> simp [ih]
+
+theorem matchingAncestors_strip (sp : StripFn) (c : Test) (f : Option Test) (single : Bool)
+    (L : List Loc) (h : ∀ x ∈ L, keep sp x = true) :
+    (matchingAncestors sp c f single L).map (Loc.strip sp)
+      = matchingAncestors noStrip c f single (L.map (Loc.strip sp)) :=
+  matchingAncestorsFrom_strip sp c f single L true h
 
 theorem siblingChain_strip (sp : StripFn) (c : Test) :
     ∀ L : List Loc, siblingChain sp c L = siblingChain noStrip c ((L.filter (keep sp)).map (Loc.strip sp))
@@ -277,11 +309,11 @@ theorem numberOfTarget_strip (sp : StripFn) (c : Test) (t : Loc) (h : t.stripped
   unfold numberOfTarget
   rw [siblingChain_strip sp c t.precedingSiblings, precedingSiblings_strip sp t h]
 
-theorem matchingAncestors_sub (sp : StripFn) (c : Test) (f : Option Test) (single : Bool) :
-    ∀ L : List Loc, ∀ x ∈ matchingAncestors sp c f single L, x ∈ L
-  | [], x, hx => by simp [matchingAncestors] at hx
-  | n :: rest, x, hx => by
-    simp only [matchingAncestors] at hx
+theorem matchingAncestorsFrom_sub (sp : StripFn) (c : Test) (f : Option Test) (single : Bool) :
+    ∀ (L : List Loc) (b : Bool), ∀ x ∈ matchingAncestorsFrom sp c f single b L, x ∈ L
+  | [], _, x, hx => by simp [matchingAncestorsFrom] at hx
+  | n :: rest, b, x, hx => by
+    simp only [matchingAncestorsFrom] at hx
     split at hx
     · simp at hx
     · split at hx
@@ -289,8 +321,12 @@ theorem matchingAncestors_sub (sp : StripFn) (c : Test) (f : Option Test) (singl
         · simp at hx; simp [hx]
         · rcases List.mem_cons.mp hx with hx | hx
           · simp [hx]
-          · exact List.mem_cons_of_mem _ (matchingAncestors_sub sp c f single rest x hx)
-      · exact List.mem_cons_of_mem _ (matchingAncestors_sub sp c f single rest x hx)
+          · exact List.mem_cons_of_mem _ (matchingAncestorsFrom_sub sp c f single rest false x hx)
+      · exact List.mem_cons_of_mem _ (matchingAncestorsFrom_sub sp c f single rest false x hx)
+
+theorem matchingAncestors_sub (sp : StripFn) (c : Test) (f : Option Test) (single : Bool)
+    (L : List Loc) : ∀ x ∈ matchingAncestors sp c f single L, x ∈ L :=
+  matchingAncestorsFrom_sub sp c f single L true
 
 theorem numberList_strip (sp : StripFn) (c : Test) (f : Option Test) (single : Bool) (l : Loc)
     (h : l.stripped sp = false) :
